@@ -19,12 +19,12 @@ theorem new_ok  (c : α)  : new  c = .ok (s0  c) := by
 
 @[simp] def abs  (s : State α) : Unit := ()
 
-theorem upd_eq  (s : State α) (x : α)  :
+theorem upd_eq   (s : State α) (x : α)  :
     (update  s x).map (abs ) = (constV s.val).upd (abs  s) x := by
   simp only [update, wrap, mapV, binop, constV, abs]; gen_tie
 theorem upd_cfg  (s s' : State α) (x : α) : update  s x = .ok s' → s'.val = s.val := by
   simp only [update, constV]; gen_tie
-theorem last_eq  (s : State α)  : last  s = (constV s.val).last (abs  s) := by
+theorem last_eq   (s : State α)  : last  s = (constV s.val).last (abs  s) := by
   simp only [last, wrap, mapV, binop, constV, abs]; gen_tie
 
 def sim  (c : α)  : Sim (mkView (s0  c) (update ) (last )) (constV c) where
